@@ -69,6 +69,8 @@ class Camera:
             resolution=copy.deepcopy(self.resolution),
             focal=copy.deepcopy(self.focal),
             fov=copy.deepcopy(self.fov),
+            z_near=self.z_near,
+            z_far=self.z_far,
         )
 
     @property
